@@ -7,6 +7,9 @@ from fractions import Fraction
 from ..astutil import (call_name, calls_in, const_value, find_func, is_self_attr, names_in, parse_expr, parse_stmt,
                        replace_node)
 from ..domains import weak_orderings
+from ..cfg import CFG
+from ..dataflow import inline_env
+from ..astutil import subst_names
 from ..frontend import AnalysisError, walk_function, walk_stmts
 from ..nf import to_nf, NFUnsupported, RF, Poly, _subst_atom
 from ..report import norm_text
@@ -27,13 +30,62 @@ EXPLANATION = (
     "and continuity over the whole Haigh plane.")
 EXPLANATION += (' R-C12-4 additionally requires both aggregation paths (with and without additional index levels) to use the verified membership predicate and no library binning. R-C12-5: the validated R-segment order reaches the distance sort of the segment transformer unchanged; the two unbounded segments tie in distance, so their processing order is the validated order.')
 EXPLANATION += (' R-C12-6: a local helper whose result is NaN-patched (.fillna) at one call site is patched or guarded by an explicit infinity test of its argument at every call site (belief-contradiction rule for the indeterminate form (1+R)/(1-R) at R = +-inf).')
+EXPLANATION += (" R-C12-4 evaluates the membership mask of the re-binning helper (after inlining its locals) as a boolean function of the position of a range relative to the class edges, for &, |, ~, operator/np comparison functions and comparison expressions; an approximate comparison (np.isclose ...) in the mask is a violation. R-C12-7: no numeric parameter (M, M2, R_goal, amplitude, meanstress ...) of a mean-stress function is used as a truth value - 0 is admissible for each of them.")
 ASSUMPTIONS = ["pandas IntervalIndex.get_indexer_for maps interval values to their positions",
                "1 - R_goal + M (1 + R_goal) != 0 for admissible slopes"]
 
 
 def run(ctx):
-    for r in (_r1, _r2, _r3, _r4, _r5, _r6):
+    for r in (_r1, _r2, _r3, _r4, _r5, _r6, _r7):
         ctx.attempt(r)
+
+
+NUMERIC_PARAMS = ("M", "M2", "M0", "M1", "M3", "M4", "R_goal", "R12", "R23", "amplitude", "meanstress", "N_c", "M_sigma")
+
+
+def _truthiness_sites(fn_node, params):
+    """uses of a numeric parameter as a truth value: `p or d`, `p and x`, `not p`, `if p:`, `x if p else y`"""
+    out = []
+
+    def bare(e):
+        return isinstance(e, ast.Name) and e.id in params
+    for n in ast.walk(fn_node):
+        if isinstance(n, ast.BoolOp):
+            for v in n.values[:-1] if isinstance(n.op, ast.Or) else n.values:
+                if bare(v):
+                    out.append((n, v.id))
+        elif isinstance(n, ast.UnaryOp) and isinstance(n.op, ast.Not) and bare(n.operand):
+            out.append((n, n.operand.id))
+        elif isinstance(n, (ast.If, ast.IfExp, ast.While)) and bare(n.test):
+            out.append((n, n.test.id))
+    return out
+
+
+def _r7(ctx):
+    """0 is an admissible value of every numeric parameter of the mean-stress module (M2 = 0: no sensitivity beyond R = 0;
+    R_goal = 0; mean 0).  Using such a parameter as a truth value (`M2 or M/3`) silently replaces a legitimate 0."""
+    prog = ctx.prog
+    ctx.rule("R-C12-7", floor=1, what="numeric parameters of the mean-stress functions are never used as truth values")
+    ex = ast.parse("def f(M, M2=None):\n    return {'M2': M2 or M / 3.}\n").body[0]
+    if [p_ for _, p_ in _truthiness_sites(ex, NUMERIC_PARAMS)] != ["M2"]:
+        raise AnalysisError("R-C12-7 built-in example not matched")
+    n = 0
+    for key, fi in sorted(prog.functions.items()):
+        if fi.module.name != MS:
+            continue
+        ps = [q for q in fi.params if q in NUMERIC_PARAMS]
+        if not ps:
+            continue
+        n += 1
+        for node, pname in _truthiness_sites(fi.node, ps):
+            st = node
+            while not isinstance(st, ast.stmt):
+                st = st._parent
+            ctx.violated(fi, st, "%s: the numeric parameter %s is used as a truth value in `%s`; the admissible value 0 is treated "
+                         "as 'not given' and replaced" % (fi.name, pname, norm_text(node)[:60]), text="truthiness %s %s" % (fi.name, pname))
+    if n < 5:
+        raise AnalysisError("only %d functions with numeric parameters found in the mean-stress module" % n)
+    ctx.holds(MS, None, "%d functions with numeric parameters (%s): none used as a truth value" % (n, "/".join(NUMERIC_PARAMS[:7])))
 
 
 REORDER = ("sort_values", "sort_index", "sort", "argsort", "reindex", "take", "sortlevel", "sample", "reorder_levels")
@@ -487,45 +539,92 @@ def _r4(ctx):
     f = prog.functions.get(MS + ":MeanstressTransformMatrix._rebin_results.sum_intervals")
     if f is None:
         raise AnalysisError("sum_intervals helper not found")
-    sel = [s for s in f.node.body if isinstance(s, ast.Assign) and isinstance(s.value, ast.IfExp)]
     ret = [s for s in f.node.body if isinstance(s, ast.Return)]
-    if len(sel) != 1 or not ret:
-        raise AnalysisError("sum_intervals: operator selection not found")
-    opname = sel[0].targets[0].id
-    first_op = norm_text(sel[0].value.body)
-    other_op = norm_text(sel[0].value.orelse)
-    test = norm_text(sel[0].value.test)
-    mask = [n for n in ast.walk(ret[0].value) if isinstance(n, ast.BinOp) and isinstance(n.op, ast.BitAnd)]
-    if len(mask) != 1:
+    if len(ret) != 1:
+        raise AnalysisError("sum_intervals: single return expected")
+    env = inline_env(CFG(f.node), ret[0])
+    env.pop("__ambiguous__", None)
+    full = subst_names(ret[0].value, env)
+    sub = [n for n in ast.walk(full) if isinstance(n, ast.Subscript) and isinstance(n.value, ast.Attribute) and
+           n.value.attr in ("iloc", "loc")]
+    sub += [n for n in ast.walk(full) if isinstance(n, ast.Subscript) and not sub]
+    if not sub:
         raise AnalysisError("sum_intervals: membership mask not found")
-    l, r = mask[0].left, mask[0].right
-    if not (isinstance(l, ast.Call) and isinstance(r, ast.Call)):
-        raise AnalysisError("sum_intervals: membership mask shape")
-    OPS = {"op.ge": lambda a, b: a >= b, "op.gt": lambda a, b: a > b, "op.le": lambda a, b: a <= b, "op.lt": lambda a, b: a < b}
-    right_op = norm_text(r.func)
-    left_is_sel = isinstance(l.func, ast.Name) and l.func.id == opname
-    ok_shape = left_is_sel and norm_text(l.args[1]).endswith(".left") and norm_text(r.args[1]).endswith(".right") and \
-        first_op in OPS and other_op in OPS and right_op in OPS and test in ("iv.left == 0.0", "iv.left == 0")
-    if not ok_shape:
-        raise AnalysisError("sum_intervals: membership predicate not understood (%s / %s / %s)" % (first_op, other_op, right_op))
+    mask = sub[0].slice
+    OPS = {"op.ge": lambda a, b: a >= b, "op.gt": lambda a, b: a > b, "op.le": lambda a, b: a <= b, "op.lt": lambda a, b: a < b,
+           "op.eq": lambda a, b: a == b, "op.ne": lambda a, b: a != b,
+           "np.greater_equal": lambda a, b: a >= b, "np.greater": lambda a, b: a > b,
+           "np.less_equal": lambda a, b: a <= b, "np.less": lambda a, b: a < b}
+    CMP = {ast.GtE: "op.ge", ast.Gt: "op.gt", ast.LtE: "op.le", ast.Lt: "op.lt", ast.Eq: "op.eq", ast.NotEq: "op.ne"}
+    TOLERANT = ("np.isclose", "np.allclose", "math.isclose", "np.round", "np.around", "round")
 
-    def member(x, lo, hi, first):
-        return OPS[first_op if first else other_op](x, lo) and OPS[right_op](x, hi)
-    # edges e0 < e1 < e2 fixed as 0 < 2 < 4; x takes every position relative to them
+    class Tolerance(Exception):
+        pass
+    a0 = f.params[0] if f.params else "iv"
+
+    def val(e, x, lo, hi):
+        t = norm_text(e)
+        if t in ("ranges.values", "ranges", "ranges.to_numpy()"):
+            return x
+        if t == a0 + ".left":
+            return lo
+        if t == a0 + ".right":
+            return hi
+        c = const_value(e)
+        if isinstance(c, (int, float)) and not isinstance(c, bool):
+            return c
+        if any((call_name(c_) or "") in TOLERANT for c_ in calls_in(e)):
+            raise Tolerance(norm_text(e))
+        raise AnalysisError("sum_intervals: operand %s of the membership predicate not understood" % t)
+
+    def ev(e, x, lo, hi):
+        if isinstance(e, ast.BinOp) and isinstance(e.op, (ast.BitAnd, ast.BitOr)):
+            l_, r_ = ev(e.left, x, lo, hi), ev(e.right, x, lo, hi)
+            return (l_ and r_) if isinstance(e.op, ast.BitAnd) else (l_ or r_)
+        if isinstance(e, ast.UnaryOp) and isinstance(e.op, ast.Invert):
+            return not ev(e.operand, x, lo, hi)
+        if isinstance(e, ast.Compare) and len(e.ops) == 1 and type(e.ops[0]) in CMP:
+            return OPS[CMP[type(e.ops[0])]](val(e.left, x, lo, hi), val(e.comparators[0], x, lo, hi))
+        if isinstance(e, ast.Call):
+            cn = call_name(e) or ""
+            if cn in TOLERANT:
+                raise Tolerance(norm_text(e))
+            fn = e.func
+            if isinstance(fn, ast.IfExp):
+                fn = fn.body if ev(fn.test, x, lo, hi) else fn.orelse
+            if norm_text(fn) in OPS and len(e.args) == 2:
+                return OPS[norm_text(fn)](val(e.args[0], x, lo, hi), val(e.args[1], x, lo, hi))
+            if cn in ("np.logical_and", "np.logical_or") and len(e.args) == 2:
+                l_, r_ = ev(e.args[0], x, lo, hi), ev(e.args[1], x, lo, hi)
+                return (l_ and r_) if cn == "np.logical_and" else (l_ or r_)
+        raise AnalysisError("sum_intervals: membership predicate not understood (%s)" % norm_text(e)[:80])
+
+    def member(x, lo, hi):
+        return bool(ev(mask, x, lo, hi))
+    # edges fixed as 0 < 2 < 4 < 6; x takes every position relative to them
     bad = []
-    for x in (0, 1, 2, 3, 4):
-        cnt = int(member(x, 0, 2, True)) + int(member(x, 2, 4, False))
-        if cnt != 1:
-            bad.append(("first pair", x, cnt))
-    for x in (3, 4, 5, 6):          # interior pair (2,4], (4,6]; x in (2, 6]
-        cnt = int(member(x, 2, 4, False)) + int(member(x, 4, 6, False))
-        if cnt != 1:
-            bad.append(("interior pair", x, cnt))
-    if not bad:
-        ctx.holds(f, ret[0], "every range in [0, max] falls into exactly one of two adjacent bins (first [l,r], others (l,r])")
+    try:
+        for x in (0, 1, 2, 3, 4):
+            cnt = int(member(x, 0, 2)) + int(member(x, 2, 4))
+            if cnt != 1:
+                bad.append(("first pair", x, cnt))
+        for x in (3, 4, 5, 6):          # interior pair (2,4], (4,6]; x in (2, 6]
+            cnt = int(member(x, 2, 4)) + int(member(x, 4, 6))
+            if cnt != 1:
+                bad.append(("interior pair", x, cnt))
+    except Tolerance as t:
+        ctx.violated(f, ret[0], "re-binning membership uses the approximate comparison %s: a range within the tolerance of an inner "
+                     "class border belongs to two classes (or to none), so the transformed matrix does not conserve the number of "
+                     "cycles; the tolerance is absolute, the effect depends on the load unit" % t, text="membership tolerance")
+        bad = None
+    if bad is None:
+        pass
+    elif not bad:
+        ctx.holds(f, ret[0], "every range in [0, max] falls into exactly one of two adjacent bins (first [l,r], others (l,r])",
+                  {"mask": norm_text(mask)})
     else:
         ctx.violated(f, ret[0], "re-binning membership is not a partition: %s (position of the range relative to edges 0<2<4<6, "
-                     "number of bins containing it)" % bad[:3], text="membership %s %s %s" % (first_op, other_op, right_op))
+                     "number of bins containing it)" % bad[:3], text="membership " + norm_text(mask)[:60])
     rb = prog.func(MS + ":MeanstressTransformMatrix._rebin_results")
     uses = []
     for n in ast.walk(rb.node):
